@@ -588,16 +588,16 @@ impl Harness for PoolHarness {
         let report = match self.kind {
             "uis" => {
                 let s = Arc::new(FixedSizeUniqueIndexSet::<4>::new_with_reduced_capacity(cap).unwrap());
-                sim::run(cfg.to_cfg(), dec, move || body(s, p, sh2, cap, true, kill))
+                sim_run(cfg.to_cfg(), dec, move || body(s, p, sh2, cap, true, kill))
             }
             "robust" => {
                 let s = Arc::new(StaticRobustUniqueIndexSet::<4>::new_with_reduced_capacity(cap).unwrap());
-                sim::run(cfg.to_cfg(), dec, move || body(s, p, sh2, cap, false, kill))
+                sim_run(cfg.to_cfg(), dec, move || body(s, p, sh2, cap, false, kill))
             }
             _ => {
                 let s = Arc::new(PoolAlloc::new(cap));
                 alloc_errs = Some(s.clone());
-                sim::run(cfg.to_cfg(), dec, move || body(s, p, sh2, cap, true, kill))
+                sim_run(cfg.to_cfg(), dec, move || body(s, p, sh2, cap, true, kill))
             }
         };
         let g = sh.lock().unwrap();
